@@ -55,7 +55,7 @@ SRC_DEPS = {
     "C01": ["src/head.rs"], "C02": ["src/head.rs"],
     "C03": ["src/content_type.rs", "src/request.rs", "src/headers.rs"],
     "C04": ["src/util.rs", "src/http_conn.rs"], "C05": ["src/util.rs", "src/http_conn.rs HttpConn.buf", "src/http_conn.rs state guards", "src/http_conn.rs write_response"],
-    "C06": ["src/util.rs", "src/content_type.rs"], "C07": ["src/util.rs"], "C08": ["src/util.rs", "src/http_conn.rs write_response", "src/http_conn.rs handle_http_conn"],
+    "C06": ["src/util.rs", "src/content_type.rs", "src/response.rs write_http_response"], "C07": ["src/util.rs", "src/response.rs write_http_response"], "C08": ["src/util.rs", "src/http_conn.rs write_response", "src/http_conn.rs handle_http_conn", "src/response.rs write_http_response"],
     "C09": ["src/util.rs", "src/http_conn.rs"], "C10": ["src/util.rs", "src/http_conn.rs"],
     "C11": ["src/util.rs", "src/response.rs event_stream", "src/event.rs"],
     "C15": ["src/cookie.rs", "src/headers.rs"], "C16": ["src/time.rs"], "C18": ["src/log/logger.rs log()"],
